@@ -218,3 +218,59 @@ func FuncText(s *Schema) string {
 	}
 	return out
 }
+
+// ResultMaskUse: request nat field ReqField of a function masks, with bit Bit, field Field of struct Def somewhere inside
+// the function's result (the generator emits Set<Def><Field>(bool) on the function for it).
+type ResultMaskUse struct {
+	ReqField int
+	Bit      int
+	Def      *StructDef
+	Field    int
+}
+
+// ResultMaskUses lists every field inside f's result whose presence is controlled by a request nat field.
+func ResultMaskUses(f *StructDef) []ResultMaskUse {
+	var out []ResultMaskUse
+	seen := map[string]bool{}
+	type resolver func(n Nat) (int, bool)
+	var walk func(t *Type, res resolver, depth int)
+	walk = func(t *Type, res resolver, depth int) {
+		if t == nil || depth > 6 {
+			return
+		}
+		switch t.Kind {
+		case KVector, KTuple, KMaybe, KDict:
+			walk(t.Elem, res, depth)
+		case KDictAny:
+			walk(t.Key, res, depth)
+			walk(t.Elem, res, depth)
+		case KStruct:
+			inner := func(n Nat) (int, bool) {
+				if n.Kind == NOuter && n.Idx < len(t.Args) {
+					return res(t.Args[n.Idx])
+				}
+				return 0, false
+			}
+			for fi := range t.Def.Fields {
+				fl := &t.Def.Fields[fi]
+				if fl.Mask != nil {
+					if rf, ok := inner(fl.Mask.Src); ok {
+						k := fmt.Sprint(rf, fl.Mask.Bit, t.Def.Name, fi)
+						if !seen[k] {
+							seen[k] = true
+							out = append(out, ResultMaskUse{ReqField: rf, Bit: fl.Mask.Bit, Def: t.Def, Field: fi})
+						}
+					}
+				}
+				walk(fl.T, inner, depth+1)
+			}
+		}
+	}
+	walk(f.Result, func(n Nat) (int, bool) {
+		if n.Kind == NField {
+			return n.Idx, true
+		}
+		return 0, false
+	}, 0)
+	return out
+}
